@@ -12,6 +12,7 @@
 package main
 
 import (
+	"bytes"
 	"encoding/binary"
 	"encoding/hex"
 	"encoding/json"
@@ -157,6 +158,7 @@ func gDecode(s string) (g gdec) {
 		}()
 		g.script = a.OutScript()
 	}()
+	holdAddr(a, s, g.script)
 	func() {
 		defer func() {
 			if r := recover(); r != nil {
@@ -173,6 +175,59 @@ func gDecode(s string) (g gdec) {
 		}
 	}()
 	return
+}
+
+// A decoded address must keep denoting the same destination whatever is decoded afterwards (a send list is parsed
+// first, the outputs are built later): the last decoded objects are kept and re-evaluated every 40 decodes.
+type heldAddr struct {
+	a      *btc.BtcAddr
+	s      string
+	script []byte
+	str    string
+}
+
+var (
+	held      []heldAddr
+	heldSince int
+)
+
+func holdAddr(a *btc.BtcAddr, s string, script []byte) {
+	if script == nil {
+		return
+	}
+	str := ""
+	func() {
+		defer func() { recover() }()
+		str = a.String()
+	}()
+	if len(held) >= 48 {
+		held = held[1:]
+	}
+	held = append(held, heldAddr{a, s, append([]byte{}, script...), str})
+	heldSince++
+	if heldSince >= 40 {
+		recheckHeld()
+	}
+}
+
+func recheckHeld() {
+	heldSince = 0
+	for _, h := range held {
+		var scr []byte
+		str := ""
+		func() {
+			defer func() { recover() }()
+			scr = h.a.OutScript()
+			str = h.a.String()
+		}()
+		count("held_addresses_rechecked")
+		if !bytes.Equal(scr, h.script) || str != h.str {
+			violation("decoded-address-changes-later", "an address object decoded earlier denotes another script / string after other addresses have been decoded",
+				map[string]interface{}{"string": q(h.s), "script_then": hex.EncodeToString(h.script), "script_now": hex.EncodeToString(scr), "string_then": q(h.str), "string_now": q(str)})
+			held = nil
+			return
+		}
+	}
 }
 
 func gFromScript(scr []byte, testnet bool) (s string, isNil bool, pm string) {
